@@ -1,2 +1,161 @@
-"""Bounded TLC models (filled in below)."""
-MODELS = {}
+"""Bounded TLC models: exhaustive exploration of small instances of the specification, and the
+spec -> impl direction (every model transition / decoder-input shape is printed by TLC and turned into
+a script for the harness)."""
+import json, os, hashlib, random
+from . import run, gen
+from .run import log, ToolError
+
+SPEC = run.SPEC
+
+
+def write_cfg(name, text):
+    p = os.path.join(run.WORK, name)
+    os.makedirs(run.WORK, exist_ok=True)
+    # TLC wants the cfg next to (or addressed relative to) the module; use an absolute path
+    with open(p, "w") as f:
+        f.write(text)
+    return p
+
+
+def pick(lines, limit, seed):
+    """deterministic sample of at most `limit` items"""
+    if limit is None or len(lines) <= limit:
+        return lines
+    rng = random.Random(seed)
+    return rng.sample(lines, limit)
+
+
+# ------------------------------------------------------------------------------------------ MC_Hist
+HIST_CFG = """SPECIFICATION Spec
+CONSTANTS
+  MaxDepth = %(depth)d
+  KT = "%(kt)s"
+  Dev = "%(dev)s"
+  Emit = %(emit)s
+VIEW View
+INVARIANTS InvValid InvSize InvNid InvEq InvTotal
+ACTION_CONSTRAINTS ActProps EmitT
+CHECK_DEADLOCK FALSE
+"""
+
+
+def hist_scripts(lines, kt_model, limit, seed):
+    """one script per distinct (state, call): construct the state by decoding an independently signed record,
+    then make the call -- under every key type that can hold the record"""
+    seen, uniq = set(), []
+    for l in lines:
+        body = l[2:] if l.startswith("T ") else l
+        if body in seen:
+            continue
+        seen.add(body)
+        uniq.append(body)
+    uniq = pick(uniq, limit, seed)
+    own, other = ("k1", "k2") if kt_model == "k256" else ("e1", "e2")
+    kts = ["k256", "libsecp", "comb", "wk256"] if kt_model == "k256" else ["ed", "comb", "wed"]
+    name = {"own": own, "other": other}
+    scripts = []
+    for n, body in enumerate(uniq):
+        t = json.loads(body)
+        c = t["call"]
+        args = dict(c["args"])
+        if "pk_of" in args:
+            args["pk_of"] = name[args["pk_of"]]
+        fault = c["fault"]
+        steps = []
+        for kt in kts:
+            if fault and not kt.startswith("w"):
+                continue
+            h = "r_" + kt
+            steps.append({"op": "decode", "h": h, "kt": kt, "tag": "mc_pre",
+                          "input": {"rec": {"seq": t["seq"], "pairs": t["pairs"], "sig": {"by": t["by"]}}}})
+            steps.append({"op": "call", "h": h, "m": c["m"], "args": args, "signer": name[c["signer"]], "fault": fault,
+                          "obs": "full" if n % 7 == 0 else "core"})
+        scripts.append({"sid": "mch-%s-%d" % (kt_model, n), "steps": steps})
+    return scripts, len(uniq), len(seen)
+
+
+def model_hist(kt, depth, limit, seed, wd, dev="none", emit=True):
+    cfg = write_cfg("MC_Hist_%s_%s.cfg" % (kt, dev), HIST_CFG % {"depth": depth, "kt": kt, "dev": dev, "emit": "TRUE" if emit else "FALSE"})
+    res = run.tlc_model(cfg, "MC_Hist.tla", os.path.join(wd, "mc_hist_" + kt), workers=8, capture_prefixes=("T ",))
+    stats = {"name": "MC_Hist[%s]" % kt, "states": res["states"], "transitions": res["transitions"], "ok": res["ok"],
+             "wall_s": round(res["wall_s"], 1), "constants": {"MaxDepth": depth, "KT": kt, "Dev": dev},
+             "tail": "\n".join(res["out"].splitlines()[-25:]) if not res["ok"] else ""}
+    scripts, used, total = hist_scripts(res["captured"], kt, limit, seed) if emit else ([], 0, 0)
+    stats["transitions_emitted"] = total
+    stats["transitions_replayed"] = used
+    return {"stats": stats, "scripts": scripts}
+
+
+# ------------------------------------------------------------------------------------------ MC_Gen
+GEN_CFG = """SPECIFICATION Spec
+CONSTANTS
+  MaxPairs = %(pairs)d
+  Classes = {%(classes)s}
+  Scheme = "%(scheme)s"
+  Emit = %(emit)s
+INVARIANT ShapeProps
+ACTION_CONSTRAINT EmitShape
+CHECK_DEADLOCK FALSE
+"""
+ALL_CLASSES = list(range(1, 24))
+CORE_CLASSES = [1, 2, 3, 4, 7, 8, 12, 13, 14, 15, 18, 22, 23]
+
+
+def shape_scripts(lines, limit, seed, tagp):
+    uniq = list(dict.fromkeys(l[6:] if l.startswith("SHAPE ") else l for l in lines))
+    total = len(uniq)
+    # every shape that is valid by construction is replayed; the (far more numerous) invalid ones are sampled
+    valid = [u for u in uniq if '"valid":true' in u]
+    rest = [u for u in uniq if '"valid":true' not in u]
+    uniq = valid + pick(rest, None if limit is None else max(0, limit - len(valid)), seed)
+    scripts, steps = [], []
+    for n, body in enumerate(uniq):
+        t = json.loads(body)
+        sig = {"by": t["by"]}
+        if t["sigc"] == "wrong_key":
+            sig = {"by": "k2" if t["by"] == "k1" else "e2"}
+        elif t["sigc"] == "other_content":
+            sig = {"by": t["by"], "over": t["items"] + [{"s": [1]}]}
+        elif t["sigc"] == "len63":
+            sig = {"by": t["by"], "len": 63}
+        elif t["sigc"] == "len65":
+            sig = {"by": t["by"], "len": 65}
+        elif t["sigc"] == "list":
+            sig = {"by": t["by"], "as": "l"}
+        outer = {"exact": {}, "minus1": {"delta": -1}, "plus1": {"delta": 1}, "string": {"str": True}, "long": {"long": True}}[t["outer"]]
+        rec = {"items": t["items"], "sig": sig}
+        if outer:
+            rec["outer"] = outer
+        steps.append({"op": "decode", "kts": gen.KT_ALL, "input": {"rec": rec},
+                      "tag": "%s_%s_%s_%s" % (tagp, "valid" if t["valid"] else "invalid", t["sigc"], t["outer"])})
+        if len(steps) >= 500:
+            scripts.append({"sid": "%s-%d" % (tagp, len(scripts)), "steps": steps})
+            steps = []
+    if steps:
+        scripts.append({"sid": "%s-%d" % (tagp, len(scripts)), "steps": steps})
+    return scripts, len(uniq), total
+
+
+def model_gen(scheme, pairs, classes, limit, seed, wd, emit=True):
+    cfg = write_cfg("MC_Gen_%s_%d.cfg" % (scheme, pairs), GEN_CFG % {"pairs": pairs, "scheme": scheme, "classes": ",".join(map(str, classes)),
+                                                                 "emit": "TRUE" if emit else "FALSE"})
+    res = run.tlc_model(cfg, "MC_Gen.tla", os.path.join(wd, "mc_gen_%s_%d" % (scheme, pairs)), workers=8, capture_prefixes=("SHAPE ",))
+    stats = {"name": "MC_Gen[%s,%d]" % (scheme, pairs), "states": res["states"], "transitions": res["transitions"], "ok": res["ok"],
+             "wall_s": round(res["wall_s"], 1), "constants": {"MaxPairs": pairs, "Scheme": scheme, "Classes": classes},
+             "tail": "\n".join(res["out"].splitlines()[-25:]) if not res["ok"] else ""}
+    scripts, used, total = shape_scripts(res["captured"], limit, seed, "mcg_%s%d" % (scheme, pairs)) if emit else ([], 0, 0)
+    stats["shapes_emitted"] = total
+    stats["shapes_replayed"] = used
+    return {"stats": stats, "scripts": scripts}
+
+
+def Q(tier, q, t):
+    return q if tier == "quick" else t
+
+
+MODELS = {
+    "hist_k256": lambda tier, wd, seed=1: model_hist("k256", 2, Q(tier, 1500, 20000), seed, wd),
+    "hist_ed": lambda tier, wd, seed=1: model_hist("ed", 2, Q(tier, 800, 10000), seed, wd),
+    "gen_secp": lambda tier, wd, seed=1: model_gen("secp", Q(tier, 2, 3), ALL_CLASSES, Q(tier, 6000, 60000), seed, wd),
+    "gen_ed": lambda tier, wd, seed=1: model_gen("ed", 3, Q(tier, CORE_CLASSES, ALL_CLASSES), Q(tier, 4000, 60000), seed, wd),
+}
